@@ -190,3 +190,16 @@ package PVM
 //@   ensures error_clean: output.ExitReason == ExitContinue && (input.VM.Registers[7] == WHO || input.VM.Registers[7] == OOB) ==> frame_only(*input.VM.Gas, input.VM.Registers[7])
 //@   ensures ok: output.ExitReason == ExitContinue && input.VM.Registers[7] != WHO && input.VM.Registers[7] != OOB ==> input.VM.Registers[7] == OK
 //@   assigns everything
+
+// G (GP B.12): after a general host call the (possibly modified) own account is written back into x's account table;
+// nothing else in the pre-existing heap changes and the output is otherwise passed through
+//@ func G
+//@   props C10
+//@   ghost k uint32
+//@   requires table: o.Addition.AccumulateArgs.ResultContextX.PartialState.ServiceAccounts != nil
+//@   let accts = o.Addition.AccumulateArgs.ResultContextX.PartialState.ServiceAccounts
+//@   let self = o.Addition.AccumulateArgs.ResultContextX.ServiceID
+//@   ensures stored: has(accts, self) && accts[self] == serviceAccount
+//@   ensures others: types.ServiceID(k) != self ==> has(accts, types.ServiceID(k)) == old(has(accts, types.ServiceID(k))) && (has(accts, types.ServiceID(k)) ==> accts[types.ServiceID(k)] == old(accts[types.ServiceID(k)]))
+//@   ensures passed: result == o
+//@   assigns everything
